@@ -11,40 +11,19 @@ ERROR awkward_ListOffsetArray_reduce_nonlocal_outstartsstops_64(
   int64_t lendistincts,
   const int64_t* gaps,
   int64_t outlength) {
+  // distincts is laid out in blocks of maxcount entries, one block per output list
+  // (awkward_ListOffsetArray_reduce_nonlocal_preparenext_64 fills entry parent*maxcount + k
+  // for the k-th item of every list with that parent), so output list i covers the
+  // filled prefix of block i; an empty prefix is an empty list.
   int64_t maxcount = (outlength == 0 ? 0 : lendistincts / outlength);
-
-  int64_t j = 0;
-  int64_t k = 0;
-  int64_t maxdistinct = -1;
-  int64_t lasti = -1;
-  for (int64_t i = 0;  i < lendistincts;  i++) {
-    if (maxdistinct < distincts[i]) {
-      maxdistinct = distincts[i];
-
-      int64_t extra = (i - lasti)/maxcount;
-      lasti = i;
-
-      int64_t numgappy = gaps[j];
-      if (numgappy < extra) {
-        numgappy = extra;
-      }
-
-      for (int64_t gappy = 0;  gappy < numgappy;  gappy++) {
-        outstarts[k] = i;
-        outstops[k] = i;
-        k++;
-      }
-      j++;
+  for (int64_t i = 0;  i < outlength;  i++) {
+    int64_t start = i * maxcount;
+    int64_t stop = start;
+    while (stop < start + maxcount  &&  distincts[stop] != -1) {
+      stop++;
     }
-
-    if (distincts[i] != -1) {
-      outstops[k - 1] = i + 1;
-    }
-  }
-
-  for (;  k < outlength;  k++) {
-    outstarts[k] = lendistincts + 1;
-    outstops[k] = lendistincts + 1;
+    outstarts[i] = start;
+    outstops[i] = stop;
   }
 
   return success();
